@@ -443,6 +443,25 @@ NP_KERNELS = [
                        'decl__choice': ('ext_choice', ['L[Int]'], 'Int'), 'decl__cummat': ('ext_get_cummat', ['Int'], py2lean.CUMMAT),
                        'decl__propagate': ('ext_propagate', [py2lean.CUMMAT, 'Int', 'Int'], 'L[Int]')})),
     ]),
+    ('utils/filtering.py', 'UtilsGauss', None, [
+        # `gaussian_filter` for a 1-d, a 2-d and a 3-d float array (the dimension is static in the translation: one form each); the scipy filters are oracles whose
+        # NAME records the keyword arguments of the call (`mode='nearest'`, `sigma=(sigma, 0)` = along axis 0 only): another call text is "no longer translated"
+        ('gaussian_filter', dict(lean_name='gaussian_filter_1d', ret='L[Rat]', params=['L[Rat]', 'Rat'], param_names=['array', 'sigma'],
+            rewrite_stmts={"return _gaussian_filter_1d(array, sigma=sigma, mode='nearest')": 'return ext_gaussian_filter1d_nearest(array, sigma)',
+                           "return _gaussian_filter(array, sigma=(sigma, 0), mode='nearest')": 'return ext_gaussian_filter_axis0_nearest(array, sigma)'},
+            externals={'ext_gaussian_filter1d_nearest': ('ext_gaussian_filter1d_nearest', ['L[Rat]', 'Rat'], 'L[Rat]'),
+                       'ext_gaussian_filter_axis0_nearest': ('ext_gaussian_filter_axis0_nearest', ['L[L[Rat]]', 'Rat'], 'L[L[Rat]]')})),
+        ('gaussian_filter', dict(lean_name='gaussian_filter_2d', ret='L[L[Rat]]', params=['L[L[Rat]]', 'Rat'], param_names=['array', 'sigma'],
+            rewrite_stmts={"return _gaussian_filter_1d(array, sigma=sigma, mode='nearest')": 'return ext_gaussian_filter1d_nearest(array, sigma)',
+                           "return _gaussian_filter(array, sigma=(sigma, 0), mode='nearest')": 'return ext_gaussian_filter_axis0_nearest(array, sigma)'},
+            externals={'ext_gaussian_filter1d_nearest': ('ext_gaussian_filter1d_nearest', ['L[Rat]', 'Rat'], 'L[Rat]'),
+                       'ext_gaussian_filter_axis0_nearest': ('ext_gaussian_filter_axis0_nearest', ['L[L[Rat]]', 'Rat'], 'L[L[Rat]]')})),
+        ('gaussian_filter', dict(lean_name='gaussian_filter_3d', ret='L[L[Rat]]', params=['L[L[L[Rat]]]', 'Rat'], param_names=['array', 'sigma'],
+            rewrite_stmts={"return _gaussian_filter_1d(array, sigma=sigma, mode='nearest')": 'return ext_gaussian_filter1d_nearest(array, sigma)',
+                           "return _gaussian_filter(array, sigma=(sigma, 0), mode='nearest')": 'return ext_gaussian_filter_axis0_nearest(array, sigma)'},
+            externals={'ext_gaussian_filter1d_nearest': ('ext_gaussian_filter1d_nearest', ['L[Rat]', 'Rat'], 'L[Rat]'),
+                       'ext_gaussian_filter_axis0_nearest': ('ext_gaussian_filter_axis0_nearest', ['L[L[Rat]]', 'Rat'], 'L[L[Rat]]')})),
+    ]),
 ]
 
 # calls of translated functions of OTHER modules: dotted python name -> (namespace, function)
@@ -806,6 +825,7 @@ class NpFn(Fn):
             self.ptypes = self.ptypes + [parse_type(pt_)]
         self.ret = parse_type(sig['ret'])
         self.hints = {k: parse_type(v) for k, v in sig.get('locals', {}).items()}
+        self.const_env = {}       # names currently bound to a STATIC integer (`ndim = array.ndim`): tests on them are resolved at translation time
         # defaults of trailing parameters (python source)
         self.defaults = {}
         d = node.args.defaults
@@ -972,7 +992,12 @@ class NpFn(Fn):
                 return pre, '(pyLen %s)' % c, 'Int'
             if e.attr == 'ndim':
                 c, t = sub(e.value)
-                return pre, ('(2 : Int)' if is_mat(t) else '(1 : Int)'), 'Int'
+                depth, tt = 0, t
+                while isinstance(tt, tuple) and tt[0] == 'L':
+                    depth, tt = depth + 1, tt[1]
+                if tt not in SCAL or depth < 1:
+                    raise Unsupported('%s: .ndim of %s' % (self.name, t))
+                return pre, '(%d : Int)' % depth, 'Int'
             if e.attr == 'shape' and is_vec(self.typeof(e.value)):
                 c, t = sub(e.value)
                 return pre, '[(pyLen %s)]' % c, ('L', 'Int')
@@ -1871,7 +1896,15 @@ class NpFn(Fn):
             proj = proj + '.2'
         return out
 
+    def static_test(self, t):
+        if isinstance(t, ast.Compare) and len(t.ops) == 1 and isinstance(t.left, ast.Name) and t.left.id in self.const_env \
+                and isinstance(t.comparators[0], ast.Constant) and isinstance(t.comparators[0].value, int) and not isinstance(t.comparators[0].value, bool):
+            a, b = self.const_env[t.left.id], t.comparators[0].value
+            return {ast.Eq: a == b, ast.NotEq: a != b, ast.Lt: a < b, ast.LtE: a <= b, ast.Gt: a > b, ast.GtE: a >= b}.get(type(t.ops[0]))
+        return None
+
     def bind_np(self, name, code, typ, ind):
+        self.const_env.pop(name, None)          # any re-binding ends the static knowledge about the name
         sp = ' ' * ind
         old = self.declared_np.get(name)
         outer = name in self.scope_outer and name not in self.fresh_in_scope
@@ -1935,6 +1968,11 @@ class NpFn(Fn):
                     c = self.coerce(c, ty, self.hints[t.id])
                     ty = self.hints[t.id]
                 out.extend(self.bind_np(t.id, c, ty, ind))
+                if isinstance(s.value, ast.Attribute) and s.value.attr == 'ndim' and self.depth == 0 and not self.scope_outer:
+                    import re as _re2
+                    m_ = _re2.fullmatch(r'\((\d+) : Int\)', c)
+                    if m_:
+                        self.const_env[t.id] = int(m_.group(1))      # the number of dimensions is fixed by the static type
                 return out
             if isinstance(t, ast.Tuple) and all(isinstance(x, ast.Name) for x in t.elts):
                 pre, c, ty = self.ex(s.value)
@@ -2029,6 +2067,19 @@ class NpFn(Fn):
                         emit_pre(pv)
                         out.append(sp + '%s ← npMaskSet2 %s %s %s' % (arr, arr, cm, self.coerce(cv, tv, elem(ta))))
                         return out
+        if isinstance(s, ast.If):
+            st_ = self.static_test(s.test)
+            if st_ is not None:
+                # a test on a statically known integer (array rank): only the branch taken exists for this form
+                out = []
+                taken = (s.body if st_ else s.orelse)
+                for b_ in taken:
+                    out.extend(self.stmt(b_, ind))
+                    if getattr(self, '_dead', False):
+                        break
+                if taken and isinstance(taken[-1], (ast.Return, ast.Raise)):
+                    self._dead = True
+                return out
         if isinstance(s, ast.If) and self.depth == 0 and not self.scope_outer:
             # simple form first (branches only update variables that already exist with the same type); otherwise merge the branches
             snap = (dict(self.env), dict(self.declared_np), dict(self.rename), dict(self.version), self.tmp)
@@ -2242,6 +2293,7 @@ EXT_IMPL = {'ext_peq': 'MsmVerif.GenCodec.oracleVec "peq"', 'ext_argsort': 'MsmV
             'ext_argsort_cx': 'MsmVerif.GenCodec.oracleTableKey "argsort_cx"',
             'ext_log': 'MsmVerif.GenCodec.oracleElemwise "log"',
             'ext_read_csv': 'MsmVerif.GenCodec.oracleConst3 "read_csv"',
+            'ext_gaussian_filter1d_nearest': 'MsmVerif.GenCodec.oracleConst2 "filter1d"', 'ext_gaussian_filter_axis0_nearest': 'MsmVerif.GenCodec.oracleConst2 "filter2d"',
             'ext_kernel_wt': 'MsmVerif.GenCodec.oracleConst5 "estimator"', 'ext_kernel_tt': 'MsmVerif.GenCodec.oracleConst5 "estimator_tt"',
             'ext_md_estimate_paths': 'MsmVerif.GenCodec.oracleConst3 "md_paths"',
             'ext_opentxt_data': 'MsmVerif.GenCodec.oracleConst2 "data"', 'ext_opentxt_data_2d': 'MsmVerif.GenCodec.oracleConst2 "data"',
